@@ -274,9 +274,11 @@ func c16Dump() map[int64][2]string {
 }
 
 // where is request r: a resting place, or -1 if its goroutine can still move
-func c16Classify(r *c16Req, dump map[int64][2]string) int {
-	if d := r.done.Load(); d != 0 {
-		return int(d)
+// (done is the request's result flag as read BEFORE the dump was taken: a goroutine that had
+// returned by then had finished all its effects on the limiter before the snapshot)
+func c16Classify(r *c16Req, done int32, dump map[int64][2]string) int {
+	if done != 0 {
+		return int(done)
 	}
 	g, ok := dump[r.gid]
 	if !ok {
@@ -300,12 +302,18 @@ func (h *c16Run) settle(n int) c16Obs {
 	sts := make([]int, n)
 	for spin := 0; ; spin++ {
 		runtime.Gosched()
+		done := make([]int32, n)
+		for i := 0; i < n && i < len(h.reqs); i++ {
+			if h.reqs[i] != nil {
+				done[i] = h.reqs[i].done.Load()
+			}
+		}
 		dump := c16Dump()
 		moving := false
 		for i := 0; i < n; i++ {
 			sts[i] = c16NotYet
 			if i < len(h.reqs) && h.reqs[i] != nil && h.reqs[i].launched {
-				c := c16Classify(h.reqs[i], dump)
+				c := c16Classify(h.reqs[i], done[i], dump)
 				if c < 0 {
 					moving = true
 					c = c16Hang
